@@ -233,14 +233,16 @@ def NetOk {α : Type} (C : Cls α) (cache : Cache) (B : Str) (ns : NetSpec α) :
    | none => cacheGet cache (netName B ns.name) = none ∧ ns.chans ≠ []) ∧
   ChansOk C cache (netName B ns.name) ns.chans
 
-theorem loop_chans {α : Type} (C : Cls α) (K : Kind) (B : Str) (cache : Cache) (hK : K.chanV = true)
-    (todo : List (Str × α)) (rest : List Str) : ∀ (x : Var α),
+theorem loop_chans {α : Type} (C : Cls α) (K : Kind) (B : Str) (cache : Cache)
+    (todo : List (Str × α)) (hK : K.chanV = true ∨ todo = []) (rest : List Str) : ∀ (x : Var α),
     (∀ cv ∈ todo, findKey cv.1 x.chans = none) → ChansOk C cache B todo → RT C x.value →
     eagerLoop C K B cache x (todo.map (fun cv => childName B cv.1) ++ rest) =
       eagerLoop C K B cache { x with chans := x.chans ++ leafs todo } rest := by
   induction todo with
   | nil => intro x _ _ _; simp [leafs]
   | cons cv tail ih =>
+    have hK : K.chanV = true := by rcases hK with h | h; exact h; simp at h
+    have ih := ih (Or.inl hK)
     intro x hfree hok hp
     obtain ⟨hall, hpw⟩ := hok
     have hcv := hall cv (by simp)
@@ -255,9 +257,9 @@ theorem loop_chans {α : Type} (C : Cls α) (K : Kind) (B : Str) (cache : Cache)
     rw [this]
     simp [leafs]
 
-theorem loop_netchans {α : Type} (C : Cls α) (K : Kind) (B : Str) (cache : Cache) (hK : K.chanV = true)
+theorem loop_netchans {α : Type} (C : Cls α) (K : Kind) (B : Str) (cache : Cache)
     (n : Str) (hn : (':' :: n).getLast? ≠ some '\\')
-    (todo : List (Str × α)) (rest : List Str) : ∀ (x : Var α) (l : List (Str × Net α)) (nv : Net α),
+    (todo : List (Str × α)) (hK : K.chanV = true ∨ todo = []) (rest : List Str) : ∀ (x : Var α) (l : List (Str × Net α)) (nv : Net α),
     x.nets = l ++ [(n, nv)] → findKey n l = none →
     (∀ cv ∈ todo, findKey cv.1 nv.chans = none) → ChansOk C cache (netName B n) todo → RT C nv.value →
     eagerLoop C K B cache x (todo.map (fun cv => childName (netName B n) cv.1) ++ rest) =
@@ -268,6 +270,8 @@ theorem loop_netchans {α : Type} (C : Cls α) (K : Kind) (B : Str) (cache : Cac
     simp only [List.map_nil, List.nil_append, leafs, List.append_nil]
     rw [← hx]
   | cons cv tail ih =>
+    have hK : K.chanV = true := by rcases hK with h | h; exact h; simp at h
+    have ih := ih (Or.inl hK)
     intro x l nv hx hl hfree hok hp
     obtain ⟨hall, hpw⟩ := hok
     have hcv := hall cv (by simp)
@@ -286,8 +290,8 @@ theorem loop_netchans {α : Type} (C : Cls α) (K : Kind) (B : Str) (cache : Cac
     rw [this]
     simp [leafs]
 
-theorem loop_net {α : Type} (C : Cls α) (K : Kind) (B : Str) (cache : Cache) (hK : K.chanV = true)
-    (ns : NetSpec α) (rest : List Str) (x : Var α)
+theorem loop_net {α : Type} (C : Cls α) (K : Kind) (B : Str) (cache : Cache)
+    (ns : NetSpec α) (hK : K.chanV = true ∨ ns.chans = []) (rest : List Str) (x : Var α)
     (hfree : findKey ns.name x.nets = none) (hok : NetOk C cache B ns) (hp : RT C x.value) :
     eagerLoop C K B cache x (ns.keys B ++ rest) =
       eagerLoop C K B cache { x with nets := x.nets ++ [(ns.name, ns.build x.value)] } rest := by
@@ -300,7 +304,7 @@ theorem loop_net {α : Type} (C : Cls α) (K : Kind) (B : Str) (cache : Cache) (
     rw [show netName B ns.name = childName B (':' :: ns.name) from rfl]
     rw [eagerStep_net C K B cache x ns.name w hfree hp hset.2 hset.1]
     simp only
-    have := loop_netchans C K B cache hK ns.name hn ns.chans rest
+    have := loop_netchans C K B cache ns.name hn ns.chans hK rest
       { x with nets := x.nets ++ [(ns.name, ⟨w, true, []⟩)] } x.nets ⟨w, true, []⟩ rfl hfree
       (by intro cv _; rfl) hch hset.1
     rw [show netName B ns.name = childName B (':' :: ns.name) from rfl] at this
@@ -312,6 +316,7 @@ theorem loop_net {α : Type} (C : Cls α) (K : Kind) (B : Str) (cache : Cache) (
     cases hcs : ns.chans with
     | nil => exact absurd hcs hne
     | cons cv tail =>
+      have hK : K.chanV = true := by rcases hK with h | h; exact h; rw [hcs] at h; simp at h
       rw [hcs] at hch
       obtain ⟨hall, hpw⟩ := hch
       have hcv := hall cv (by simp)
@@ -321,7 +326,7 @@ theorem loop_net {α : Type} (C : Cls α) (K : Kind) (B : Str) (cache : Cache) (
       rw [show netName B ns.name = childName B (':' :: ns.name) from rfl] at hcv hnone ⊢
       rw [eagerStep_netchan_fresh C K B cache x ns.name cv.1 cv.2 hK hcv.1 hn hfree hp hnone hcv.2.2 hcv.2.1]
       simp only
-      have := loop_netchans C K B cache hK ns.name hn tail rest
+      have := loop_netchans C K B cache ns.name hn tail (Or.inl hK) rest
         { x with nets := x.nets ++ [(ns.name, ⟨x.value, false, [(cv.1, ⟨cv.2, true⟩)]⟩)] } x.nets
         ⟨x.value, false, [(cv.1, ⟨cv.2, true⟩)]⟩ rfl hfree
         (by
@@ -332,8 +337,8 @@ theorem loop_net {α : Type} (C : Cls α) (K : Kind) (B : Str) (cache : Cache) (
       rw [this]
       simp [leafs]
 
-theorem loop_nets {α : Type} (C : Cls α) (K : Kind) (B : Str) (cache : Cache) (hK : K.chanV = true)
-    (todo : List (NetSpec α)) : ∀ (x : Var α),
+theorem loop_nets {α : Type} (C : Cls α) (K : Kind) (B : Str) (cache : Cache)
+    (todo : List (NetSpec α)) (hK : ∀ ns ∈ todo, K.chanV = true ∨ ns.chans = []) : ∀ (x : Var α),
     (∀ ns ∈ todo, findKey ns.name x.nets = none) → (∀ ns ∈ todo, NetOk C cache B ns) →
     todo.Pairwise (fun a b => keyEq a.name b.name = false) → RT C x.value →
     eagerLoop C K B cache x (todo.flatMap (NetSpec.keys B)) =
@@ -341,9 +346,10 @@ theorem loop_nets {α : Type} (C : Cls α) (K : Kind) (B : Str) (cache : Cache) 
   induction todo with
   | nil => intro x _ _ _ _; simp [eagerLoop]
   | cons ns tail ih =>
+    have ih := ih (fun ns' h' => hK ns' (by simp [h']))
     intro x hfree hok hpw hp
     have hpw' := List.pairwise_cons.mp hpw
-    rw [List.flatMap_cons, loop_net C K B cache hK ns _ x (hfree ns (by simp)) (hok ns (by simp)) hp]
+    rw [List.flatMap_cons, loop_net C K B cache ns (hK ns (by simp)) _ x (hfree ns (by simp)) (hok ns (by simp)) hp]
     have := ih { x with nets := x.nets ++ [(ns.name, ns.build x.value)] }
       (by
         intro ns' h'
@@ -359,17 +365,20 @@ def BootOk {α : Type} (C : Cls α) (cache : Cache) (B : Str) (t : TreeSpec α) 
 
 /-- a fresh process whose cache holds the lines of a tree in normal form rebuilds that tree -/
 theorem boot_rebuilds {α : Type} (C : Cls α) (K : Kind) (B : Str) (cache : Cache) (t : TreeSpec α)
-    (hK : K.chanV = true) (hkeys : cache.map (·.1) = t.keys B) (h : BootOk C cache B t) :
+    (hK : K.chanV = true ∨ (K.netV = true ∧ t.chans = [] ∧ ∀ ns ∈ t.nets, ns.chans = []))
+    (hkeys : cache.map (·.1) = t.keys B) (h : BootOk C cache B t) :
     boot C K B cache = .up ⟨t.build, cache⟩ := by
   obtain ⟨hb, hcb, hch, hnets, hpw⟩ := h
   unfold boot
   simp only [hcb, hb C.dflt]
-  rw [if_neg (by simp [hK])]
+  rw [if_neg (by rcases hK with h | h; simp [h]; simp [h.1])]
   rw [hkeys]
   unfold TreeSpec.keys
   simp only [eagerLoop, eagerStep_base]
-  rw [loop_chans C K B cache hK t.chans _ ⟨t.base, true, [], []⟩ (by intro cv _; rfl) hch hb]
-  rw [loop_nets C K B cache hK t.nets _ (by intro ns _; rfl) hnets hpw hb]
+  rw [loop_chans C K B cache t.chans (by rcases hK with h | h; exact Or.inl h; exact Or.inr h.2.1) _
+    ⟨t.base, true, [], []⟩ (by intro cv _; rfl) hch hb]
+  rw [loop_nets C K B cache t.nets (by intro ns hns; rcases hK with h | h; exact Or.inl h; exact Or.inr (h.2.2 ns hns)) _
+    (by intro ns _; rfl) hnets hpw hb]
   simp [TreeSpec.build]
 
 /-! ### the cache read from a file whose keys are distinct -/
@@ -538,7 +547,8 @@ theorem mem_entries_net {α : Type} (B : Str) (t : TreeSpec α) (ns : NetSpec α
 
 theorem saveLoad_normal_aux (hh : HeaderOk Gen.Registry.confFileHeader)
     (pr : Char → Bool) (c : ClassId) (dflt : Val) (K : Kind) (B : Str) (t : TreeSpec Val) (cache0 : Cache)
-    (hK : K.chanV = true) (hc : c ≠ .str .normalized) (h : Storable pr c dflt B t) :
+    (hK : K.chanV = true ∨ (K.netV = true ∧ t.chans = [] ∧ ∀ ns ∈ t.nets, ns.chans = []))
+    (hc : c ≠ .str .normalized) (h : Storable pr c dflt B t) :
     saveLoad pr c dflt K B ⟨t.build, cache0⟩ =
       .up ⟨t.build, (t.entries B).map fun kv => (kv.1, c.show pr kv.2)⟩ := by
   have hshow : ∀ v, (c.cls pr dflt).str v = c.show pr v := fun _ => rfl
